@@ -597,7 +597,7 @@ impl Check for TCheck {
     fn assumptions(&self) -> Vec<String> {
         vec![
             "sequentially consistent memory; one DashMap / SegQueue / atomic call = one atomic step (their own linearizability is trusted)".into(),
-            "explored executions are a subset of the real SC executions: a thread holding a map guard is never descheduled".into(),
+            "a thread may be descheduled while it holds a map guard (the simulator keeps the table of held shard locks: a thread that needs a conflicting lock waits cooperatively, everything else interleaves); an iteration is modelled as holding every shard, which only removes interleavings".into(),
             "order ids unique per program; positive quantities; no id is added twice".into(),
             "schedules are sampled by seeded strategies (uniform, sticky, PCT, stall, op-boundary), not enumerated".into(),
         ]
